@@ -67,9 +67,11 @@ func cmdRules(args []string) {
 	t0 := time.Now()
 	var outs []hx.Outcome
 	var err error
-	events := hx.Trace(func() { outs, err = hx.GenerateEach(hx.GenConfig(*work, []string{"./p"}, nil)) })
-	if *traceFile == "" {
-		events = nil
+	var events []map[string]any
+	if *traceFile != "" {
+		events = hx.Trace(func() { outs, err = hx.GenerateEach(hx.GenConfig(*work, []string{"./p"}, nil)) })
+	} else {
+		outs, err = hx.GenerateEach(hx.GenConfig(*work, []string{"./p"}, nil))
 	}
 	hx.Must(err)
 	if len(outs) != len(scens) {
